@@ -227,6 +227,8 @@ impl Store {
     /// As such, there is also no guarantee that the data you see is
     /// already persisted.
     fn tables(&mut self) -> Result<&Tables<'_>> {
+        #[cfg(feature = "verif")]
+        let verif_age = crate::verif::store_access();
         let guard = &mut self.transaction;
         let tables = match std::mem::take(guard) {
             CurrentTransaction::None => {
@@ -234,6 +236,8 @@ impl Store {
                 TransactionAndTables::new(tx)?
             }
             CurrentTransaction::Write(w) => {
+                #[cfg(feature = "verif")]
+                let w = crate::verif::age_transaction(w, verif_age);
                 if w.since.elapsed() > MAX_COMMIT_DELAY {
                     tracing::debug!("committing transaction because it's too old");
                     w.commit()?;
@@ -249,6 +253,8 @@ impl Store {
             }
         };
         *guard = CurrentTransaction::Write(tables);
+        #[cfg(feature = "verif")]
+        crate::verif::after_store_access();
         match guard {
             CurrentTransaction::Write(ref mut tables) => Ok(tables.tables()),
             _ => unreachable!(),
@@ -264,6 +270,8 @@ impl Store {
     /// To ensure that the data is persisted, acquire a snapshot of the database
     /// or call flush.
     fn modify<T>(&mut self, f: impl FnOnce(&mut Tables) -> Result<T>) -> Result<T> {
+        #[cfg(feature = "verif")]
+        let verif_age = crate::verif::store_access();
         let guard = &mut self.transaction;
         let tables = match std::mem::take(guard) {
             CurrentTransaction::None => {
@@ -271,6 +279,8 @@ impl Store {
                 TransactionAndTables::new(tx)?
             }
             CurrentTransaction::Write(w) => {
+                #[cfg(feature = "verif")]
+                let w = crate::verif::age_transaction(w, verif_age);
                 if w.since.elapsed() > MAX_COMMIT_DELAY {
                     tracing::debug!("committing transaction because it's too old");
                     w.commit()?;
@@ -286,6 +296,8 @@ impl Store {
             }
         };
         *guard = CurrentTransaction::Write(tables);
+        #[cfg(feature = "verif")]
+        crate::verif::after_store_access();
         let res = match &mut *guard {
             CurrentTransaction::Write(ref mut tables) => tables.with_tables_mut(f)?,
             _ => unreachable!(),
